@@ -181,6 +181,17 @@ func factsC16() {
 			return true
 		})
 	}
+	// what LabelValues (the one method whose BinaryReader result points into the mmapped header) returns
+	var lvRet []string
+	if fd := fn(f, "LazyBinaryReader", "LabelValues"); fd != nil && fd.Body != nil {
+		ast.Inspect(fd.Body, func(n ast.Node) bool {
+			if r, ok := n.(*ast.ReturnStmt); ok && len(r.Results) == 2 {
+				lvRet = append(lvRet, text(r.Results[0]))
+			}
+			return true
+		})
+	}
+	emitList("lazyLabelValuesReturns", "pkg/block/indexheader/lazy_binary_reader.go LabelValues: first result of every return", lvRet)
 	emitList("lazyDirectReturns", "pkg/block/indexheader/lazy_binary_reader.go: Reader methods that return the loaded header's result as it is", direct)
 }
 
